@@ -495,7 +495,8 @@ pub fn run(ctx: &mut Ctx) {
                 bad.push((case, "C08/emitted-enum-does-not-compile-for-32-bit-target".to_string(), crate::verdict::one_line(e, 300)));
             }
             for (i, b) in &built4 {
-                let reg = b.ok.state.type_registry();
+                let state_guard = b.ok.state.lock().unwrap();
+                let reg = state_guard.type_registry();
                 for (mp, ef) in &b.efiles {
                     for en in &ef.enums {
                         enums += 1;
